@@ -3,7 +3,7 @@
    positive stay the Coq datatypes.  No Extract Constant directive is used. *)
 Require Extraction.
 Require Import ExtrOcamlBasic.
-From XtModel Require Import Base InputModel Utf8 UtfModel TranscodeModel FormatsModel MsgpackModel.
+From XtModel Require Import Base InputModel Utf8 UtfModel TranscodeModel FormatsModel IoModel DetectModel MsgpackModel.
 
 Extraction Language OCaml.
 Extraction "model.ml"
@@ -11,5 +11,5 @@ Extraction "model.ml"
   utf8_valid utf8_encode is_scalar
   detect encoder_new encoder_from_reader read_seq
   transcode
-  translate_history
+  translate_history translate_history_w
   next_value_size transcode_slice transcode_reader mm_output mm_ok msgpack_matches DEPTH_LIMIT.
